@@ -275,9 +275,15 @@ contract(F, "RuleDBForest.get_specification_rules", props=["C11", "C02"], lenien
 contract(F, "TableMethod.__init__", props=["C11", "C03"], verify=False, aliases=FAL,
          trusted_reason="constructor summary: empty table, gap size 1, empty function",
          params={"self": Obj("TableMethod")},
-         ensures=["self._gap_size == 1", "len(self._rules) == 0", "fresh(self._function)", "fresh(self._rules)"],
+         ensures=["self._gap_size == 1", "len(self._rules) == 0", "fresh(self._function)", "fresh(self._rules)",
+                  # every container of the new table is a new object
+                  "fresh(self._shifts)", "fresh(self._processing_queue)", "fresh(self._rule_holding_extra_terms)",
+                  "fresh(self._function._value)", "fresh(self._function._preimage_count)",
+                  "fresh(self._function._preimage_count._list)"],
          modifies=["*self"], self_invariant=False)
 REG.classes["ForestRuleExtractor"].fields.update({"root_label": Int})
+_ISP_OTHER = ["all:Obj('TableMethod')", "all:List(List(Opt(Int)))", "all:List(Int)", "all:Deque(Int)", "all:Set(Int)",
+                   "all:List(Opt(Int))", "all:Obj('Function')", "all:Obj('DefaultListInt')"]
 contract(F, "ForestRuleExtractor._is_productive", props=["C11"], lenient=True, aliases=FAL,
          params={"self": Obj("ForestRuleExtractor"), "rule_keys": Seq(ForestRuleKey)}, returns=Bool,
          requires=["self.root_label >= 0",
@@ -286,12 +292,56 @@ contract(F, "ForestRuleExtractor._is_productive", props=["C11"], lenient=True, a
          # the verdict is the pumping status of the root in a table that received every given key (and only those), in order
          loops={0: dict(invariant=["ruledb._gap_size >= 1", "fresh(ruledb)", "len(ruledb._rules) == _i0",
                                    "forall(lambda j: implies(0 <= j and j < _i0, ruledb._rules[j] == rule_keys[j]))"],
-                        modifies=["all:Obj('TableMethod')", "all:List(ForestRuleKey)", "all:List(List(Opt(Int)))", "all:List(Int)",
-                                  "all:Deque(Int)", "all:Set(Int)", "all:List(Opt(Int))", "all:Obj('Function')",
-                                  "all:Obj('DefaultListInt')"])},
+                        modifies=["*ruledb._rules"] + _ISP_OTHER)},
          call_requires={"TableMethod.is_pumping": ["label == caller_self.root_label", "fresh(self)",
                                                    "len(self._rules) == len(rule_keys)",
                                                    "forall(lambda j: implies(0 <= j and j < len(rule_keys), self._rules[j] == rule_keys[j]))"]},
-         modifies=["all:Obj('TableMethod')", "all:List(ForestRuleKey)", "all:List(List(Opt(Int)))", "all:List(Int)",
-                   "all:Deque(Int)", "all:Set(Int)", "all:List(Opt(Int))", "all:Obj('Function')", "all:Obj('DefaultListInt')"],
+         # no list of rule keys that existed before the call changes (the table's own key list is a new object); the
+         # other kinds of state belong to the fresh table but are not separated from pre-existing tables here
+         modifies=_ISP_OTHER,
          notes="productivity is judged by a fresh table method that was given exactly these keys")
+
+# ---------------------------------------------------------------- C11: _minimize_key -- bookkeeping of the kept rules
+# (no reasoning about productivity itself: that needs monotonicity of the table method, paper lemma L3)
+#   * the bucket being minimised is emptied, the other buckets are untouched, needed_rules only grows,
+#   * a rule is kept (appended to needed_rules) only right after `_is_productive` of everything else answered False:
+#     ghost set `nec` collects the keys for which that test was observed; every new element of needed_rules is in it.
+REG.classes["ForestRuleExtractor"].fields.update({"needed_rules": List(ForestRuleKey),
+                                                  "rule_by_bucket": Dict(Bucket, List(ForestRuleKey))})
+_MK_MODS = ["*self.needed_rules", "all:List(ForestRuleKey)", "all:List(List(ForestRuleKey))", "all:Obj('TableMethod')",
+            "all:List(List(Opt(Int)))", "all:List(Int)", "all:Deque(Int)", "all:Set(Int)", "all:List(Opt(Int))",
+            "all:Obj('Function')", "all:Obj('DefaultListInt')"]
+_NEW_NEC = ("forall(lambda i: implies({lo} <= i and i < len(self.needed_rules), nec[self.needed_rules[i]]))")
+_OLD_SAME = ("len(self.needed_rules) >= {lo} and forall(lambda i: implies(0 <= i and i < {lo}, "
+             "self.needed_rules[i] == {old}))")
+contract(F, "ForestRuleExtractor._minimize_key", props=["C11"], lenient=True, aliases=dict(FAL, RuleBucket=Bucket),
+         params={"self": Obj("ForestRuleExtractor"), "key": Bucket},
+         locals={"maybe_useful": List(ForestRuleKey), "not_minimizing": List(List(ForestRuleKey)),
+                 "minimizing": List(ForestRuleKey), "rk": ForestRuleKey},
+         ghost={"nec": Map(ForestRuleKey, Bool), "n0": Int},
+         pure_calls=["add_rule_key", "is_pumping"],
+         # that every key handed to _is_productive pairs each child with a shift is established where keys are created
+         # (forest_key contracts), not re-proved through the lists here
+         assume_call_pre=["ForestRuleExtractor._is_productive"],
+         requires=["key in self.rule_by_bucket", "n0 == len(self.needed_rules)", "self.root_label >= 0",
+                   "forall(lambda k=RuleBucket: implies(k in self.rule_by_bucket, not same(self.rule_by_bucket[k], self.needed_rules)))",
+                   "forall(lambda k=RuleBucket, l=RuleBucket: implies(k in self.rule_by_bucket and l in self.rule_by_bucket and k != l, "
+                   "not same(self.rule_by_bucket[k], self.rule_by_bucket[l])))"],
+         may_raise=["RuntimeError", "AssertionError", "IndexError"], asserts="raise",
+         ensures=["len(self.rule_by_bucket[key]) == 0",
+                  "len(self.needed_rules) >= n0",
+                  "forall(lambda i: implies(0 <= i and i < n0, self.needed_rules[i] == old(self.needed_rules[i])))",
+                  _NEW_NEC.format(lo="n0")],
+         ghost_stmts={"before:expr#9": ['assert not last_result("ForestRuleExtractor._is_productive")', "nec = madd(nec, rk)"]},
+         loops={0: dict(invariant=["len(self.needed_rules) == n0", "not same(minimizing, self.needed_rules)",
+                                   "not same(maybe_useful, self.needed_rules)", "not same(maybe_useful, minimizing)",
+                                   "forall(lambda i: implies(0 <= i and i < n0, self.needed_rules[i] == at('loop0', self.needed_rules[i])))"],
+                        modifies=_MK_MODS),
+                1: dict(invariant=[], modifies=[]), 2: dict(invariant=[], modifies=[]),
+                3: dict(invariant=[], modifies=["*minimizing"]),
+                4: dict(invariant=["len(self.rule_by_bucket[key]) == 0", "len(self.needed_rules) >= n0",
+                                   "forall(lambda i: implies(0 <= i and i < n0, self.needed_rules[i] == at('loop4', self.needed_rules[i])))",
+                                   _NEW_NEC.format(lo="n0")],
+                        modifies=_MK_MODS)},
+         modifies=_MK_MODS,
+         notes="which rules are kept, and on what evidence; minimality of the final set follows with monotonicity (L3, assumed)")
